@@ -22,8 +22,9 @@ A material that states NO range for a property is outside the quantifier of C19;
 clause on the physically meaningful half line (Tk >= 0) or for all T where that is true, and says so.
 Natively the same lemmas run on the real armi materials with random temperatures of the range.
 
-Out of reach / not here: SaturatedWater, SaturatedSteam (sums of irrational powers up to tau^(111/3) and e^x: no exact
-model), Water (abstract: raises NotImplementedError by design), Custom and _Mixture (user-supplied density).
+Not here: Custom and _Mixture (no correlation: user-supplied density / composition).  Water is abstract by design
+(lemma abstract_water_refuses); SaturatedWater / SaturatedSteam are proved with exact real roots (y^q = x) and with
+e^x under-specified by facts true of the real exponential.
 Known findings restated as refuted lemmas: contracts/pending/C19_materials_finding.py.
 """
 import numpy
@@ -102,16 +103,18 @@ def solid(m, Tk, derived=True, kg=True):
     return p, d2, d3
 
 
-def fluid(m, Tk):
+def fluid(m, Tk, kg=True, celsius=True):
     """the C19 clause for a fluid at Tk (K): density = pseudoDensity > 0, no linear expansion"""
     Tc = Tk - K0
     d2 = m.pseudoDensity(Tk=Tk)
-    d3 = m.density(Tk=Tk)
     assert d2 > 0, "pseudoDensity is positive"
+    d3 = m.density(Tk=Tk)
     assert eq(d3, d2), "a fluid's density is its pseudoDensity"
     assert m.linearExpansionPercent(Tk=Tk) == 0 and m.linearExpansion(Tk=Tk) == 0, "fluids do not expand linearly"
-    assert eq(m.pseudoDensityKgM3(Tk=Tk), 1000.0 * d2) and eq(m.densityKgM3(Tk=Tk), 1000.0 * d3), "kg/m^3 = 1000 x g/cm^3"
-    assert eq(m.pseudoDensity(Tc=Tc), d2) and eq(m.density(Tc=Tc), d2), "Tc form = Tk form"
+    if kg:
+        assert eq(m.pseudoDensityKgM3(Tk=Tk), 1000.0 * d2) and eq(m.densityKgM3(Tk=Tk), 1000.0 * d3), "kg/m^3 = 1000 x g/cm^3"
+    if celsius:
+        assert eq(m.pseudoDensity(Tc=Tc), d2) and eq(m.density(Tc=Tc), d2), "Tc form = Tk form"
     return d2
 
 
@@ -670,6 +673,80 @@ def lithium(Tk: float):
     m = Lithium()
     composition(m, 2)
     assert fluid(m, Tk) == 0.512
+
+
+SaturatedWater = mat("water:SaturatedWater")
+SaturatedSteam = mat("water:SaturatedSteam")
+Water = mat("water:Water")
+
+
+class Elem:
+    """stand-in for an Element of the element table: only .standardWeight is read by Water.setDefaultMassFracs
+    (contract assumed: standardWeight > 0)"""
+
+
+ELEMENTS = {"H": new(Elem, standardWeight=1.008 if NATIVE else uf("weight_H")), "O": new(Elem, standardWeight=15.999 if NATIVE else uf("weight_O"))}
+OVW = {"armi.nucDirectory.elements:bySymbol": "ELEMENTS"}
+WGEN = {"Tk": (273.16, 647.096)}
+
+
+def water_range(Tk):
+    """Water states NO range (propertyValidTemperature is empty: outside the quantifier of C19); the lemmas take the
+    range of the IAPWS supplementary release the class cites: triple point 273.16 K .. critical point 647.096 K"""
+    assert Water.propertyValidTemperature == {}
+    assume(ELEMENTS["H"].standardWeight > 0 and ELEMENTS["O"].standardWeight > 0)
+    assume(273.16 <= Tk and Tk <= Water.TEMPERATURE_CRITICAL_K)
+
+
+@lemma(gen=WGEN, overrides=OVW)
+def saturated_water(Tk: float):
+    """SaturatedWater, all Tk in [273.16, 647.096] K: rho/rho_c = 1 + b1 y + b2 y^2 + b3 y^5 + b4 y^16 + b5 y^43 + b6 y^111
+    with y = tau^(1/3) the exact real cube root (tau = 1 - Tk/Tcrit in [0, 0.578]); density = pseudoDensity >= the
+    critical density 0.322.  Collaborator: element table = ELEMENTS (arbitrary positive standard weights of H, O)"""
+    water_range(Tk)
+    m = SaturatedWater()
+    composition(m, 2)
+    d = fluid(m, Tk, kg=False, celsius=False)
+    assert d >= 0.322 and d < 1.01, "between the critical density and that of cold water"
+
+
+@lemma(gen=WGEN, overrides=OVW)
+def saturated_steam(Tk: float):
+    """SaturatedSteam, all Tk in [273.16, 647.096] K: rho = rho_c e^(c1 y^2 + ... + c6 y^71), y = tau^(1/6) the exact real
+    sixth root, all c_i < 0; math.e ** x enters through the sound facts e^x > 0, e^x <= 1 for x <= 0 only, so:
+    0 < density = pseudoDensity <= the critical density 0.322"""
+    water_range(Tk)
+    m = SaturatedSteam()
+    composition(m, 2)
+    d = fluid(m, Tk, kg=False, celsius=False)
+    assert d <= 0.322
+
+
+@lemma(gen=dict(WGEN, which=[0, 1]), overrides=OVW)
+def saturated_water_and_steam_other_forms(Tk: float, which: int):
+    """the remaining clauses for SaturatedWater (which = 0) / SaturatedSteam (1), split off to keep each lemma short:
+    kg/m^3 = 1000 x g/cm^3, and asking with Tc = Tk - 273.15 gives the same value as asking with Tk"""
+    water_range(Tk)
+    which = choose(which, 0, 1)
+    m = SaturatedWater() if which == 0 else SaturatedSteam()
+    d2 = m.pseudoDensity(Tk=Tk)
+    assert eq(m.pseudoDensityKgM3(Tk=Tk), 1000.0 * d2) and eq(m.densityKgM3(Tk=Tk), 1000.0 * d2), "kg/m^3 = 1000 x g/cm^3"
+    assert eq(m.pseudoDensity(Tc=Tk - K0), d2) and eq(m.density(Tc=Tk - K0), d2), "Tc form = Tk form"
+
+
+@lemma(gen=WGEN, overrides=OVW)
+def abstract_water_refuses(Tk: float):
+    """Water itself is abstract BY DESIGN: pseudoDensity / density raise NotImplementedError naming the concrete classes
+    (it can be instantiated and has a normalised composition)"""
+    water_range(Tk)
+    m = Water()
+    composition(m, 2)
+    for ask in (m.pseudoDensity, m.density):
+        try:
+            ask(Tk=Tk)
+            assert False, "the abstract class must refuse"
+        except NotImplementedError:
+            pass
 
 
 # ----------------------------------------------------------------------------- the np.interp model against numpy
